@@ -80,7 +80,7 @@ def stage_b(run, tier):
         if r < 0.8:
             return S.rand_str(rng, S.HOSTILE, 8)
         return S.rand_str(rng, S.ORD, 10)
-    for _ in range(500 * n):
+    for _ in range((300 if tier == 'quick' else 500) * n):
         s = rname()
         if rng.random() < 0.3:
             s = rng.choice(["#/components/schemas/", "/components/schemas/", "a/", "/"]) + s
@@ -119,7 +119,7 @@ def stage_b(run, tier):
                 run.violation("oracle", {**case, "note": "a class the override table does not name changed", "without": (str(c0.name), str(c0.module_name)), "with": obs})
 
     # ---- B2 needs_prefix
-    for _ in range(400 * n):
+    for _ in range((250 if tier == 'quick' else 400) * n):
         v = rname()
         if not nosurr(v):
             continue
@@ -150,7 +150,7 @@ def stage_b(run, tier):
             c = S.rand_str(rng, list("ab/;+ jsontex\t") + ["É", "ß"], 10)
         return c
     cts_all = []
-    for _ in range(12 * n):
+    for _ in range((8 if tier == 'quick' else 12) * n):
         cts = []
         for _i in range(25):
             c = rct()
@@ -598,6 +598,36 @@ def norm_obs(x, enum_plain=False):
     return x
 
 
+def boolnum(o):
+    if isinstance(o, bool):
+        return int(o)
+    if isinstance(o, dict):
+        return {k: boolnum(v) for k, v in o.items()}
+    if isinstance(o, list):
+        return [boolnum(v) for v in o]
+    return o
+
+
+def has_int_enum(ab, kind, seen):
+    t = kind[0]
+    if t == "enum":
+        return kind[2] == "VTInt"
+    if t == "litenum":
+        return kind[1] == "VTInt"
+    if t == "list":
+        return has_int_enum(ab, kind[1], seen)
+    if t == "union":
+        return any(has_int_enum(ab, m, seen) for m in kind[1])
+    if t == "model":
+        if kind[1] in seen or kind[1] not in ab.cls_id or ab.cls_id[kind[1]] >= 1000:
+            return False
+        seen.add(kind[1])
+        m = ab.models[ab.cls_id[kind[1]]]
+        ad = ab.class_addl(m)
+        return any(has_int_enum(ab, k, seen) for _, _, k in ab.class_props(m)) or (ad is not None and has_int_enum(ab, ad, seen))
+    return False
+
+
 def run_wire(tree, instances):
     ops, keys = wire_plan(tree, instances)
     if not ops:
@@ -702,8 +732,8 @@ def relation(opt, doc, base, var, ctx):
     """Check the documented relation of option `opt` between generation `base` (option off) and `var` (option on), everything
     else equal. Returns list of (note, detail) failures. ctx: dict(with instances, wire cache, flags)."""
     fails = []
-    def fail(note, detail=None):
-        fails.append((note, detail))
+    def fail(note, detail=None, finding=None):
+        fails.append((note, detail, finding))
     if base.exc or var.exc or not base.ok or not var.ok:
         if repr(base.exc) != repr(var.exc) or base.ok != var.ok:
             fail("generation outcome differs", {"base": repr(base.exc), "variant": repr(var.exc)})
@@ -763,8 +793,9 @@ def relation(opt, doc, base, var, ctx):
             fail("project_name_override not applied", var.project)
     elif opt == "meta":
         # package subtree identical across flavours
-        d = first_diff({k: v.decode(base.encoding) for k, v in base.pkg_files().items() if k != "py.typed"},
-                       {k: v.decode(var.encoding) for k, v in var.pkg_files().items() if k != "py.typed"})
+        own = ("py.typed", "ZQ_HOOK_MARK")     # the marker, and the file a post hook of the context drops into the project directory
+        d = first_diff({k: v.decode(base.encoding) for k, v in base.pkg_files().items() if k not in own},
+                       {k: v.decode(var.encoding) for k, v in var.pkg_files().items() if k not in own})
         if d:
             fail("package subtree differs between metadata flavours %s / %s" % (base.meta, var.meta), d)
     elif opt == "generate_all_tags":
@@ -920,6 +951,12 @@ def relation(opt, doc, base, var, ctx):
                 for k, x, y in zip(kb, rb, rv):
                     sx = json.dumps(norm_obs(x, enum_plain), sort_keys=True)
                     sy = json.dumps(json.loads(tok_replace(json.dumps(norm_obs(y, enum_plain)), pairs)), sort_keys=True)
+                    if sx != sy and enum_plain and k[0] == "rt" and ctx["int_enum_model"](k[1]) and \
+                            json.dumps(boolnum(json.loads(sx)), sort_keys=True) == json.dumps(boolnum(json.loads(sy)), sort_keys=True):
+                        # exactly the guard complement of FrameCodec.literal_enum_same_wire: a JSON bool at an int-enum position
+                        fail("Enum re-emits the member's int where the Literal alias re-emits the received bool",
+                             {"op": k, "instance": ctx["instances"].get(k[1], [None] * (k[2] + 1))[k[2]]}, finding="numeric_alias")
+                        continue
                     if sx != sy:
                         i = next((i for i in range(min(len(sx), len(sy))) if sx[i] != sy[i]), 0)
                         fail("wire behaviour differs", {"op": k, "base": sx[max(0, i - 80):i + 120], "variant": sy[max(0, i - 80):i + 120]})
@@ -954,6 +991,8 @@ def work(args):
         table = opt_table(base0)
         overrides = table["class_overrides"]["cfg"]["class_overrides"]
         instances = make_instances(base0, seed)
+        ab0 = absprop.Abs(base0.data)
+        int_enum_model = lambda mi: has_int_enum(ab0, ("model", str(ab0.models[mi].class_info.name)), set())
         base_syntax_bad = {}
         for k, v in base0.files.items():
             if k.endswith(".py"):
@@ -1002,18 +1041,18 @@ def work(args):
                     v = get_tree(ctxopts + [opt], fl)
                 else:
                     v = get_tree(ctxopts + [opt], ctx_fl)
-                ctx = {"instances": instances, "overrides": overrides, "wire_cache": wire_cache, "base_syntax_bad": base_syntax_bad, "has_errors": has_errors,
-                       "wire": opt in WIRE_OPTS and budget[0] > 0 and b.encoding == "utf-8" and v.encoding == "utf-8"}
+                ctx = {"instances": instances, "overrides": overrides, "int_enum_model": int_enum_model, "wire_cache": wire_cache, "base_syntax_bad": base_syntax_bad, "has_errors": has_errors,
+                       "wire": opt in WIRE_OPTS and (not ctxopts or budget[0] > 0) and b.encoding == "utf-8" and v.encoding == "utf-8"}
                 if opt == "content_type_overrides":
                     ctx["ctype_target_tree"] = get_tree(ctxopts, ctx_fl, target=True)
-                if ctx["wire"]:
+                if ctx["wire"] and ctxopts:
                     budget[0] -= 1
                 fails = relation(opt, doc, b, v, ctx)
                 changed = b.files != v.files
-                case = {"doc": label, "option": opt, "context": ctxopts, "flavour": fl or ctx_fl or base_meta, "wire": bool(ctx["wire"])}
+                case = {"doc": label, "option": opt, "context": ctxopts, "flavour": fl or ctx_fl or base_meta, "base_meta": base_meta, "wire": bool(ctx["wire"])}
                 out["cases"].append((case, changed))
-                for note, detail in fails:
-                    out["fails"].append({**case, "note": note, "first_difference": detail, "diag": v.diag()[:3]})
+                for note, detail, finding in fails:
+                    out["fails"].append({**case, "note": note, "first_difference": detail, "diag": v.diag()[:3], "finding": finding})
         # flavour file sets for the Coq term (stage B of flavour_files)
         for key, t in trees.items():
             if t.ok and not t.exc and not key[2]:
@@ -1045,10 +1084,10 @@ def run(run, tier, replay=None):
     # ---------------- stage C jobs
     atlas = G.atlas_docs()
     docs = [("plain", plain_doc(rng))]
-    pick = [atlas[1], atlas[0], atlas[-1]] if tier == "quick" else [a for a in atlas if not a[0].startswith("unions")] + atlas[2:4]
+    pick = [atlas[1], atlas[-1]] if tier == "quick" else [a for a in atlas if not a[0].startswith("unions")] + atlas[2:4]
     for l, d in pick:
         docs.append((l, add_ops(d, random.Random(rng.randrange(1 << 30)), l)))
-    nrand = 4 if tier == "quick" else 30
+    nrand = 3 if tier == "quick" else 30
     for i in range(nrand):
         r = random.Random(rng.randrange(1 << 30))
         docs.append((f"rand{i}", add_ops(G.random_doc(r, n_models=r.randint(2, 5), depth=r.randint(1, 2)), r, f"rand{i}")))
@@ -1056,8 +1095,8 @@ def run(run, tier, replay=None):
         from gen import docs as GD
         for i in range(10):
             r = random.Random(rng.randrange(1 << 30))
-            docs.append((f"graph{i}", add_ops(GD.gen_document(r), r, f"graph{i}")))
-    npairs = 10 if tier == "quick" else 45
+            docs.append((f"graph{i}", add_ops(GD.gen_document(r)[0], r, f"graph{i}")))
+    npairs = 8 if tier == "quick" else 45
     jobs = []
     if os.environ.get("C16_ONLY") == "B":
         docs = []
@@ -1065,9 +1104,10 @@ def run(run, tier, replay=None):
         rp = json.load(open(replay))
         docs = []
         for v in rp["violations"]:
-            if "doc_json" in v:
+            if "doc_json" in v and "option" in v:
                 jobs.append((v.get("doc", "replay"), v["doc_json"], 1, [tuple(v.get("context", [])) + (v["option"],)], v.get("base_meta", "none"), 4))
-        terms, meta = [], []
+        if all("doc_json" in v for v in rp["violations"]):
+            terms, meta = [], []      # only stage C cases to replay; otherwise the (deterministic) stage B stream is re-run as a whole
     for di, (label, doc) in enumerate(docs):
         combos = [(o,) for o in SINGLES]
         allpairs = [(a, b) for a in SINGLES for b in SINGLES if a != b and a != "http_timeout" and b != "http_timeout"]
@@ -1077,7 +1117,7 @@ def run(run, tier, replay=None):
         # split a document's combos over several jobs so that the pool stays busy
         chunk = 9 if tier == "quick" else 15
         for ci in range(0, len(combos), chunk):
-            jobs.append((label, doc, rng.randrange(1 << 30), combos[ci:ci + chunk], base_meta, 4 if tier == "quick" else 8))
+            jobs.append((label, doc, rng.randrange(1 << 30), combos[ci:ci + chunk], base_meta, 3 if tier == "quick" else 8))
     run.rule = ("stage B: random (string, prefix, override table) / media type strings with override tables / operation lists with tag lists (duplicates, colliding and hostile "
                 "tags, failing operations) / (title, name, parent) triples, each evaluated by the implementation and by the Coq model; stage C: documents = a plain document + atlas "
                 "documents + random schema graphs, each extended with operations (several tags, octet/form/text/custom media types, parameter and property names that need a prefix, "
@@ -1106,7 +1146,7 @@ def run(run, tier, replay=None):
             fid = classify(f)
             if fid and run.known_finding(fid, "document '%s', option %s (context %s): %s; first difference %s" % (f["doc"], f["option"], f["context"], f["note"], json.dumps(f["first_difference"], default=str)[:200])):
                 continue
-            run.violation("oracle", {**f, "doc_json": r["doc"], "base_meta": "none"})
+            run.violation("oracle", {**f, "doc_json": r["doc"]})
         # flavour file sets vs Frame.core_files / flavour_only (evaluated in Coq): one term per (document, flavour, tag layout)
         for fl in r["flavours"]:
             if fl["post_hook"] or len(fl["files"]) > 90:
@@ -1127,6 +1167,8 @@ def run(run, tier, replay=None):
     off = len(terms)
     terms += fterms
     meta += fmeta
+    if not replay and os.environ.get("C16_ONLY") != "B":
+        collision_probe(run)
     bad = run_cases(HDR, terms[:off], shard=250) + [off + i for i in fbad]
     print("phase corr %.1fs" % (time.time() - t0))
     run.corr = {"cases": len(terms), "mismatches": len(bad),
@@ -1144,6 +1186,41 @@ def run(run, tier, replay=None):
                         "email.message.Message.get_content_type is modelled for strings without lone surrogates"]
 
 
+def collision_probe(run):
+    """class_overrides whose renaming is NOT injective: class-name collisions are diagnosed by the parser; a module-name collision
+    is not (two classes are written to one models/<module>.py). The failing oracle is classified by the Coq guard
+    rename_injective_on (FrameThm.override_injective / override_module_collision_refuted)."""
+    doc = plain_doc(run.rng)
+    probes = [("module collision", {"Alpha": {"module_name": "beta"}}), ("module collision (reverse)", {"Beta": {"module_name": "alpha"}}),
+              ("module collision (both renamed)", {"Alpha": {"module_name": "same_mod"}, "Beta": {"module_name": "Same Mod"}}),
+              ("class collision", {"Alpha": {"class_name": "Beta"}}), ("class and module renamed apart", {"Alpha": {"class_name": "Gamma", "module_name": "gamma_mod"}}),
+              ("class renamed onto the other's default module", {"Alpha": {"class_name": "beta"}})]
+    base = Tree(doc, {})
+    names = [c for c, _ in base.classes]
+    base.close()
+    silent, gterms = [], []
+    for label, ov in probes:
+        t = Tree(doc, {"class_overrides": ov})
+        try:
+            nfiles = len([k for k in t.files if k.startswith("models/") and not k.endswith("__init__.py")])
+            lost = t.ok and not t.exc and not t.diag() and nfiles < len(t.classes)
+            case = {"probe": label, "overrides": ov, "classes": getattr(t, "classes", None), "model_files": nfiles, "diagnostics": len(t.diag())}
+            run.note_case(case, nontrivial=True, kind="C:override-collision-probe")
+            covs = clist(f"({cstr(k)}, {{| o_class := {copt_str(o.get('class_name'))}; o_module := {copt_str(o.get('module_name'))} |}})" for k, o in ov.items())
+            if lost:
+                silent.append(case)
+                gterms.append(f"rename_injective_on {covs} {cstr('field_')} {clist(cstr(n) for n in names)}")
+        finally:
+            t.close()
+    guard_false = set(run_cases(HDR, gterms, shard=10)) if gterms else set()
+    for i, case in enumerate(silent):
+        what = "class_overrides %s: %d classes but %d model files and no diagnostic (two classes share one module file)" % (json.dumps(case["overrides"]), len(case["classes"]), case["model_files"])
+        if i in guard_false and run.known_finding("override_module_collision", what):
+            continue
+        run.violation("oracle", {**case, "doc_json": doc, "note": "a class silently lost its module file although the override table is injective on the document's classes" if i not in guard_false else what})
+
+
 def classify(f):
-    """exact structural tests for listed findings (none broad): returns a finding id or None"""
-    return None
+    """the finding id attached by the relation's exact structural test (none is broad): currently only numeric_alias
+    (a JSON bool at an int-enum position; the two observations are equal once bools are read as ints)"""
+    return f.get("finding")
